@@ -180,6 +180,20 @@ func forEachTree(b bound, fn func(treeIdx int, cases []Case)) {
 		fn(idx, casesOf(t))
 		idx++
 	}
+	// a chain 48 directories deep with a file at the bottom, removed while few descriptors are left to the process
+	{
+		const depth = 48
+		ch := shape{Kinds: strings.Repeat("d", depth) + "f"}
+		for i := 0; i <= depth; i++ {
+			ch.Parents = append(ch.Parents, i)
+		}
+		var cs []Case
+		for _, op := range []string{OpRm, OpRemoveCtx, OpRemoveEx, OpClean, OpCleanCtx, OpCleanEx} {
+			cs = append(cs, Case{Backend: "os", Parents: ch.Parents, Kinds: ch.Kinds, Op: op, FewDescriptors: true})
+		}
+		fn(idx, cs)
+		idx++
+	}
 	maxN := max(b.N0, b.N1, b.NL, b.N2, b.N2L)
 	for n := 0; n <= maxN; n++ {
 		for _, s := range shapes(n) {
@@ -392,7 +406,19 @@ func (r *runner) run(c *Case) (res caseResult) {
 	}
 	trace.Reset()
 	baseline := runtime.NumGoroutine()
+	var oldLimit syscall.Rlimit
+	limited := false
+	if c.FewDescriptors && syscall.Getrlimit(syscall.RLIMIT_NOFILE, &oldLimit) == nil {
+		if fds, e := os.ReadDir("/proc/self/fd"); e == nil {
+			nl := oldLimit
+			nl.Cur = uint64(len(fds) + 12)
+			limited = nl.Cur < oldLimit.Cur && syscall.Setrlimit(syscall.RLIMIT_NOFILE, &nl) == nil
+		}
+	}
 	err := runOp(fs, c.Op, root, c.pattern())
+	if limited {
+		_ = syscall.Setrlimit(syscall.RLIMIT_NOFILE, &oldLimit)
+	}
 	// garbage collection may return while goroutines it started are still removing things: wait for them
 	for spins := 0; runtime.NumGoroutine() > baseline; spins++ {
 		if spins > 50_000_000 {
